@@ -519,6 +519,19 @@ def denoteDirective (name : AttrName) (value : Node) : DDir :=
   | none => { name := dname, arg := argS.map nStr, mods := setOfList sufMods, value := vexpr.getD (S "undef" [] []),
               ood := vexpr.isNone }
 
+/-- an expression that can stand on the left of `=` (JavaScript's simple assignment targets, looking through parentheses and
+    TypeScript's type-only wrappers) -/
+def specAssignable : Node → Bool
+  | .mk .ident _ _ => true
+  | .mk .member _ _ => true
+  | .mk (.other "SuperPropExpression") _ _ => true
+  | .mk .paren _ [e] => specAssignable e
+  | .mk (.other "TsAsExpression") _ [e, _] => specAssignable e
+  | .mk (.other "TsNonNullExpression") _ [e] => specAssignable e
+  | .mk (.other "TsSatisfiesExpression") _ [e, _] => specAssignable e
+  | .mk (.other "TsTypeAssertion") _ [e, _] => specAssignable e
+  | _ => false
+
 def nSetter (target : Node) : Node := nModelListener target
 
 /-- C05: which Vue model directive a form element gets -/
@@ -604,7 +617,9 @@ def denoteAttr (c : DCtx) (isComp : Bool) (tagN : Node) (allAttrs : List Node) (
       else if d.name == "text" then addProp c (addFeat (if d.ood then addFeat acc "ood-directive-value" else acc) "has-vhtml-vtext") "textContent" d.value
       else if d.name == "model" then
         let acc := addFeat acc "has-vmodel"
-        let acc := if d.ood then addFeat acc "ood-directive-value" else acc
+        -- a two-way binding needs a target that can be assigned to (C05's quantifier: identifier, member, index); anything else
+        -- is malformed usage: outside the denotation (C07 demands that it is reported)
+        let acc := if d.ood || !specAssignable d.value then addFeat acc "ood-directive-value" else acc
         let modsObj : Node := nObject (d.mods.map fun m => nKV (nStr m) (nBool true))
         if isComp then
           -- prop `modelValue` (or the argument name), `<arg>Modifiers`, listener `onUpdate:<name>`
